@@ -435,15 +435,26 @@ fn draw_fault(f: &mut Rng, enc: &Encoded, st_aim: &mut Vec<&'static str>) -> Fau
         // ---- one flipped bit
         _ => {
             if aimed {
-                let prims = spans_where(enc, |s| is_primitive(&s.kind));
-                let s = prims[f.usize(prims.len())];
+                // half of the aimed flips go to the fields the reader does arithmetic on (offsets, lengths, counts,
+                // switch bounds) and there prefer the most significant byte
+                let arith = |s: &FieldSpan| matches!(s.kind, SpanKind::CodeOffset | SpanKind::BranchOffset | SpanKind::Count | SpanKind::Length) || s.path.ends_with(".low") || s.path.ends_with(".high") || s.path.ends_with(".npairs");
+                let pool: Vec<&FieldSpan> = if f.chance(50) { spans_where(enc, |s| is_primitive(&s.kind) && arith(s)) } else { vec![] };
+                let (s, hot) = if pool.is_empty() {
+                    let prims = spans_where(enc, |s| is_primitive(&s.kind));
+                    (prims[f.usize(prims.len())], false)
+                } else {
+                    st_aim.push("aimed.flip_in_arithmetic_field");
+                    (pool[f.usize(pool.len())], true)
+                };
                 st_aim.push("aimed.flip_in_field");
-                let mut off = within(f, s);
-                if s.kind == SpanKind::Length && s.len == 4 {
+                let mut off = if hot && f.chance(60) { s.start as u64 } else { within(f, s) };
+                let mut bit = if hot && f.chance(50) { 7 - f.below(2) as u8 } else { f.below(8) as u8 };
+                if s.kind == SpanKind::Length && s.len == 4 && off < s.start as u64 + 2 {
                     // never invent a length above 65535: the allocation it would size belongs to C16's child sandbox
-                    off = s.start as u64 + 2 + f.below(2);
+                    off = s.start as u64 + 2;
+                    bit = f.below(8) as u8;
                 }
-                Fault::Flip { off, bit: f.below(8) as u8 }
+                Fault::Flip { off, bit }
             } else {
                 Fault::Flip { off: f.below(len.max(1)), bit: f.below(8) as u8 }
             }
@@ -507,6 +518,7 @@ impl C01 {
                 (m, format!("gen seed={seed} size={size} features={:#x} major={}..={}", cfg.features, cfg.major_min, cfg.major_max))
             };
             admit::admit(&mut m);
+            let misplaced = if w.chance(25) { admit::misplace_names(&mut m, &mut |n| w.below(n)) } else { 0 };
             let mask = match w.below(10) {
                 0 => 0,
                 1 => avoid::EXC_END_AT_CODE_END,
@@ -518,7 +530,7 @@ impl C01 {
                 Ok(enc) => {
                     // the two halves of the reference model must agree before duke is judged by either
                     match parse(&enc.bytes) {
-                        Ok(back) if back == m => return (format!("{origin} avoid={mask}"), enc.bytes, false),
+                        Ok(back) if back == m => return (format!("{origin} avoid={mask} misplaced-names={misplaced}"), enc.bytes, false),
                         Ok(back) => panic!("harness: refclass parse(encode(M)) != M at {:?} ({origin})", m.diff(&back)),
                         Err(e) => panic!("harness: refclass cannot parse its own encoding: {e:?} ({origin})"),
                     }
@@ -541,8 +553,8 @@ impl Engine for C01 {
     }
     fn runs(&self, tier: Tier) -> u64 {
         match tier {
-            Tier::Quick => 30_000,
-            Tier::Thorough => 400_000,
+            Tier::Quick => 40_000,
+            Tier::Thorough => 300_000,
         }
     }
 
@@ -563,6 +575,22 @@ impl Engine for C01 {
             let l = LayoutP::from(&gen_layout(&mut w));
             if encode(&m, &l.layout()).is_ok() {
                 layouts.push(l);
+            }
+        }
+        // a pool filled towards its 65535 slots, shuffled, so that live entries get indices beyond 255 and 32767
+        let big_pool_permille = match tier {
+            Tier::Quick => 4,
+            Tier::Thorough => 25,
+        };
+        if w.below(1000) < big_pool_permille && pristine.len() < 20_000 {
+            let mut l = LayoutP::from(&gen_layout(&mut w));
+            l.cp_order = 2;
+            for unused in [38_000u32, 30_000, 20_000, 8_000] {
+                l.cp_unused = unused;
+                if encode(&m, &l.layout()).is_ok() {
+                    layouts.push(l);
+                    break;
+                }
             }
         }
         if !raw_input && layouts.is_empty() {
@@ -702,7 +730,7 @@ impl Engine for C01 {
         if let Some(io) = &p.faulty {
             st.tier("T2");
             for a in &p.aims {
-                for k in ["aimed.pool", "aimed.code", "aimed.member_table", "aimed.eof_at_span_edge", "aimed.seek_back", "aimed.flip_in_field"] {
+                for k in ["aimed.pool", "aimed.code", "aimed.member_table", "aimed.eof_at_span_edge", "aimed.seek_back", "aimed.flip_in_field", "aimed.flip_in_arithmetic_field"] {
                     if a == k {
                         st.probe(k);
                     }
@@ -766,7 +794,13 @@ impl Engine for C01 {
                                 st.probe("t2.ok_on_damaged_medium_agrees");
                             }
                         }
-                        Err(_) => st.probe("lenient_accept"),
+                        Err(e) => {
+                            st.probe("lenient_accept");
+                            let prefix = e.what.split(':').next().unwrap_or("");
+                            if let Some(name) = LENIENT.iter().find(|n| n.strip_prefix("lenient_accept.") == Some(prefix)) {
+                                st.probe(name);
+                            }
+                        }
                     }
                 }
             }
@@ -952,6 +986,7 @@ impl Engine for C01 {
             "w.local_vars",
             "w.code_type_annotations",
             "w.unknown_attrs",
+            "w.predefined_name_at_undefined_location",
             "w.code_over_32k",
             "l.goto_w",
             "l.wide",
@@ -959,6 +994,7 @@ impl Engine for C01 {
             "l.cp_not_first_use",
             "l.attrs_shuffled",
             "l.frames_full",
+            "l.pool_filled",
             "io.short_transfers",
             "io.eintr",
             "io.seek_back",
@@ -974,11 +1010,47 @@ impl Engine for C01 {
     }
 }
 
+/// reasons for which refclass refuses bytes that duke accepted under a fault (informative tally; never a violation)
+const LENIENT: [&str; 29] = [
+    "lenient_accept.magic",
+    "lenient_accept.truncated",
+    "lenient_accept.trailing-bytes",
+    "lenient_accept.cp-count",
+    "lenient_accept.cp-tag",
+    "lenient_accept.cp-index-range",
+    "lenient_accept.cp-index-kind",
+    "lenient_accept.cp-handle-kind",
+    "lenient_accept.cp-cycle",
+    "lenient_accept.bootstrap",
+    "lenient_accept.attr-length",
+    "lenient_accept.attr-duplicate",
+    "lenient_accept.code-length",
+    "lenient_accept.opcode",
+    "lenient_accept.insn-operand",
+    "lenient_accept.invokeinterface-count",
+    "lenient_accept.switch",
+    "lenient_accept.branch-target",
+    "lenient_accept.exception-range",
+    "lenient_accept.line-number",
+    "lenient_accept.local-var",
+    "lenient_accept.frame",
+    "lenient_accept.frame-offset",
+    "lenient_accept.type-annotation-offset",
+    "lenient_accept.type-annotation-target",
+    "lenient_accept.element-value-tag",
+    "lenient_accept.annotation-depth",
+    "lenient_accept.utf8",
+    "lenient_accept.version",
+];
+
 fn workload_probes(m: &Sem, inputs: &[Input], p: &Plan, st: &mut RunStats) {
     st.probe(if p.origin.starts_with("corpus") { "w.corpus" } else { "w.generated" });
     st.probe_n("w.inputs", inputs.len() as u64);
     if m.module.is_some() {
         st.probe("w.module");
+    }
+    if p.origin.contains("misplaced-names=") && !p.origin.contains("misplaced-names=0") {
+        st.probe("w.predefined_name_at_undefined_location");
     }
     if m.record.is_some() {
         st.probe("w.record");
@@ -1041,6 +1113,9 @@ fn workload_probes(m: &Sem, inputs: &[Input], p: &Plan, st: &mut RunStats) {
         }
         if l.frames == 1 {
             st.probe("l.frames_full");
+        }
+        if l.cp_unused >= 8_000 {
+            st.probe("l.pool_filled");
         }
     }
 }
